@@ -11,9 +11,11 @@ package main
 
 import (
 	"bufio"
+	"crypto/tls"
 	"encoding/json"
 	"fmt"
 	"io"
+	"log"
 	"net"
 	"net/http"
 	"strconv"
@@ -862,6 +864,101 @@ scenarios:
 	res.Eval(vkit.JSON(c), true)
 }
 
+// ---------------------------------------------------------------- http2 guns against TLS peers
+
+func http2Case(res *vkit.Result, c Case) {
+	cert, err := vkit.SelfSignedCert()
+	if err != nil {
+		res.Inconclusive(true, "cert: %v", err)
+		return
+	}
+	conf := &tls.Config{Certificates: []tls.Certificate{cert}, NextProtos: []string{"h2", "http/1.1"}}
+	fatalAllowed := false
+	switch c.Behaviour {
+	case "h2-statuses":
+	case "tls12-client-cert-required":
+		conf.ClientAuth = tls.RequireAnyClientCert
+		conf.MaxVersion = tls.VersionTLS12
+	case "tls13-client-cert-required":
+		conf.ClientAuth = tls.RequireAnyClientCert
+	case "tls-getconfig-fails":
+		conf.GetConfigForClient = func(*tls.ClientHelloInfo) (*tls.Config, error) {
+			return nil, fmt.Errorf("scripted: no config for this client")
+		}
+	case "tls-no-h2":
+		conf.NextProtos = []string{"http/1.1"}
+		fatalAllowed = true // the documented fatal condition
+	}
+	ln, err := net.Listen("tcp", "127.0.0.1:0")
+	if err != nil {
+		res.Inconclusive(true, "listen: %v", err)
+		return
+	}
+	var n atomic.Int64
+	srv := &http.Server{TLSConfig: conf, ErrorLog: log.New(io.Discard, "", 0), Handler: http.HandlerFunc(func(w http.ResponseWriter, r *http.Request) {
+		k := n.Add(1)
+		switch {
+		case strings.HasPrefix(r.URL.Path, "/good"):
+			w.WriteHeader(200)
+			_, _ = w.Write([]byte("ok"))
+		case k%4 == 0:
+			panic(http.ErrAbortHandler) // stream reset
+		case k%4 == 1:
+			w.WriteHeader(500)
+		case k%4 == 2:
+			w.Header().Set("Content-Length", "100")
+			w.WriteHeader(200)
+			_, _ = w.Write([]byte("short"))
+		default:
+			w.WriteHeader(404)
+		}
+	})}
+	go func() { _ = srv.ServeTLS(ln, "", "") }()
+	defer srv.Close()
+	var sb strings.Builder
+	total := 0
+	for r := 0; r < c.Rounds; r++ {
+		fmt.Fprintf(&sb, "/bad/%d bad\n/good/%d good\n", r, r)
+		total += 2
+	}
+	path := vkit.WriteMem([]byte(sb.String()))
+	defer vkit.RemoveMem(path)
+	gun := map[string]any{"type": "http2", "target": ln.Addr().String(), "dial": map[string]any{"timeout": "10s"}}
+	samples, rr, err := runPool(poolConf(map[string]any{"type": "uri", "file": path, "passes": 1}, gun, c.Instances), 240*time.Second)
+	if err != nil {
+		res.Inconclusive(true, "http2 pool rejected: %v", err)
+		return
+	}
+	if rr.Hang || rr.WaitHang {
+		res.Violate(key(c, "hang"), "the run did not end within 240 s:\n"+rr.Stacks, c)
+		return
+	}
+	if fatalAllowed {
+		// a target without HTTP/2 is the one documented reason to stop
+		res.Count("http2_documented_fatal_runs", 1)
+		res.Eval(vkit.JSON(c), true)
+		return
+	}
+	if rr.Err != nil {
+		res.Violate(key(c, "run-aborted"), fmt.Sprintf("Engine.Run returned %v although the target speaks HTTP/2 (or fails before any protocol was negotiated)", rr.Err), c)
+		return
+	}
+	if len(samples) != total {
+		res.Violate(key(c, "sample-count"), fmt.Sprintf("%d requests, %d samples", total, len(samples)), c)
+	}
+	for _, s := range samples {
+		if c.Behaviour == "h2-statuses" {
+			if s.Tags == "good" && (s.Proto != 200 || s.Net != 0) {
+				res.Violate(key(c, "next-request-affected"), fmt.Sprintf("well-behaved request after a bad one: proto %d net %d (%s)", s.Proto, s.Net, s.Err), c)
+			}
+		} else if s.Net == 0 {
+			res.Violate(key(c, "failure-not-reported"), fmt.Sprintf("the TLS handshake cannot succeed but the sample has net code 0 (proto %d)", s.Proto), c)
+		}
+	}
+	res.Count("http2_samples", int64(len(samples)))
+	res.Eval(vkit.JSON(c), true)
+}
+
 // closed port: every shot fails, the run still reaches the end of its ammo
 func closedPortCase(res *vkit.Result, c Case) {
 	path := vkit.WriteMem([]byte("/a bad\n/b bad\n/c bad\n/d bad\n"))
@@ -895,6 +992,8 @@ func runCase(res *vkit.Result, p *peer, c Case) {
 		}
 	}()
 	switch {
+	case c.Gun == "http2":
+		http2Case(res, c)
 	case c.Behaviour == "closed-port":
 		closedPortCase(res, c)
 	case c.Gun == "grpc" || c.Gun == "grpc/scenario":
@@ -929,7 +1028,7 @@ func main() {
 		child()
 		return
 	}
-	res := vkit.NewResult("fault enumeration: every scripted peer behaviour (statuses, body/header/status-line malformations, closes and resets at every stage, stalls, unparsable JSON/HTML, short/missing/multibyte header values) × gun kind {http, connect, http/scenario × postprocessor set {var/header with substr/upper/replace, var/jsonpath, var/xpath, assert/response, all}}; gRPC statuses 0…17, 99, deadline, and connection chaos (garbled bytes, resets, blackhole) behind a TCP proxy × {grpc, grpc/scenario}; closed port. distinct = (gun, variant, behaviour, instances, keep-alive); non-trivial = the peer misbehaves")
+	res := vkit.NewResult("fault enumeration: every scripted peer behaviour (statuses, body/header/status-line malformations, closes and resets at every stage, stalls, unparsable JSON/HTML, short/missing/multibyte header values) × gun kind {http, connect, http/scenario × postprocessor set {var/header with substr/upper/replace, var/jsonpath, var/xpath, assert/response, all}}; http2 guns against TLS peers (h2 with statuses / stream resets / short bodies, client certificate required under TLS 1.2 and 1.3, failing TLS configuration, no h2 offered = the documented fatal case); gRPC statuses 0…17, 99, deadline, and connection chaos (garbled bytes, resets, blackhole) behind a TCP proxy × {grpc, grpc/scenario}; closed port. distinct = (gun, variant, behaviour, instances, keep-alive); non-trivial = the peer misbehaves")
 	var cases []Case
 	names := []string{}
 	for _, b := range behaviours() {
@@ -952,6 +1051,9 @@ func main() {
 	}
 	for _, g := range []string{"http", "connect"} {
 		cases = append(cases, Case{Gun: g, Behaviour: "closed-port", Instances: 2})
+	}
+	for _, b := range []string{"h2-statuses", "tls12-client-cert-required", "tls13-client-cert-required", "tls-getconfig-fails", "tls-no-h2"} {
+		cases = append(cases, Case{Gun: "http2", Behaviour: b, Instances: 2, Rounds: 4})
 	}
 	for _, g := range []string{"grpc", "grpc/scenario"} {
 		cases = append(cases, Case{Gun: g, Behaviour: "statuses", Instances: 2})
